@@ -179,6 +179,7 @@ type State struct {
 	preempts    int
 	timersOn    bool
 	prov        map[string][]Prov
+	ufArg       map[string]string
 	jsonCache   map[string]Val
 	ufCache     map[string]Val
 	lastSwitch  bool
@@ -453,7 +454,7 @@ func ExploreParallel(prog *ssa.Program, cfg Config, newSolver func() (*smt.Solve
 
 func (e *Engine) runPath(entry *ssa.Function, dec []int) {
 	st := &State{eng: e, sol: e.Solver, dec: dec, varCounter: map[string]int{}, globals: map[*ssa.Global]*Loc{},
-		timersOn: true, prov: map[string][]Prov{}, jsonCache: map[string]Val{}, ufCache: map[string]Val{}}
+		timersOn: true, prov: map[string][]Prov{}, ufArg: map[string]string{}, jsonCache: map[string]Val{}, ufCache: map[string]Val{}}
 	e.Solver.PopTo(0)
 	e.Solver.Push()
 	end := "ok"
